@@ -260,7 +260,7 @@ class PauliOperator:
     def __init__(self, pauli_F2):
         assert (pauli_F2.dtype.type==np.uint8)
         assert (pauli_F2.ndim==1) and (pauli_F2.shape[0]%2==0) and (pauli_F2.shape[0]>=2)
-        self.F2 = pauli_F2
+        self.F2 = pauli_F2.copy() #the memoised str_/sign/np_list must not go stale when the caller re-uses its array
         self.num_qubit = len(pauli_F2)//2 - 1
         self._str = None
         self._sign = None
